@@ -237,6 +237,10 @@ func (d *testIface) VarlinkDispatch(ctx context.Context, c varlink.Call, methodn
 			sim.Rec("h.act", sf(`{"cid":%d,"i":%d,"op":"builtin","err":%q}`, cid, i, errStr(err)))
 		case "sleep":
 			sim.Sleep(time.Duration(a.N) * time.Microsecond)
+		case "awaitev":
+			// the handler goes on only when the other side has seen what was sent so
+			// far (at least N log events of kind Name): replies are not held back
+			sim.Await(sim.Cond{Kind: sim.CondLogged, S1: a.Name, N: a.N})
 		case "shutdown":
 			// a method that asks the service to stop ("Quit"): the connection it came
 			// in on is served to its end like any other
